@@ -125,3 +125,14 @@ Proof.
   intros rows calls more j H. unfold ret_hist. rewrite map_app.
   apply app_nth1. now rewrite map_length.
 Qed.
+
+(* a callback's undefined is never turned into a number: for a numeric result
+   type the call fails with TypeError; and an exception thrown by the callback
+   surfaces with its own class *)
+Theorem callback_undefined_is_not_a_number : forall idn ids k,
+  cb_call idn ids (ROne (TNum k)) (CbRet JUndef) = CE 6.
+Proof. reflexivity. Qed.
+
+Theorem callback_throw_surfaces : forall idn ids rt c,
+  rt <> RTwo -> cb_call idn ids rt (CbThrow c) = CE c.
+Proof. intros idn ids rt c H. destruct rt; try reflexivity. contradiction. Qed.
